@@ -53,11 +53,11 @@ def bwdAt [Add S] [LT S] [DecidableLT S] (rv : HMM S) (cell : Cell S) (i' j' s :
   (bestPrev rv.T s cell 1 (if i' == 0 && j' == 0 then (rv.T 0 s, 0) else (none, rv.errId))).1
 
 /-- one cell of `middle_row`: states `1..k` in order, strict `>` keeps the first maximum (`numpy.argmax`) -/
-def midCell [Add S] [LT S] [DecidableLT S] (rv : HMM S) (fc bc : Cell S) (i' j' j : Nat) :
+def midCell [Add S] [LT S] [DecidableLT S] (rv : HMM S) (bc : Cell S) (i' j' j : Nat) :
     Cell S → Nat → Option S × Nat × Nat → Option S × Nat × Nat
   | [], _, cur => cur
   | (v, _) :: rest, s, cur =>
-    midCell rv fc bc i' j' j rest (s + 1)
+    midCell rv bc i' j' j rest (s + 1)
       (if egt (eadd v (bwdAt rv bc i' j' s)) cur.1 then (eadd v (bwdAt rv bc i' j' s), j, s) else cur)
 
 /-- scan of the middle row, `j = j0, j0+1, …` over the forward row; `m` is the length of the second sequence and
@@ -66,7 +66,7 @@ def midRow [Add S] [LT S] [DecidableLT S] (rv : HMM S) (i' m : Nat) (brow : List
     List (Cell S) → Nat → Option S × Nat × Nat → Option S × Nat × Nat
   | [], _, cur => cur
   | fc :: rest, j, cur =>
-    midRow rv i' m brow rest (j + 1) (midCell rv fc (brow.getD (m - j) []) i' (m - j) j fc 1 cur)
+    midRow rv i' m brow rest (j + 1) (midCell rv (brow.getD (m - j) []) i' (m - j) j fc 1 cur)
 
 def shiftSteps (i0 j0 : Nat) (p : List (Nat × Nat × Nat)) : List (Nat × Nat × Nat) :=
   p.map fun (s, i, j) => (s, i0 + i, j0 + j)
